@@ -716,7 +716,11 @@ impl Open for VirtualSystem {
             /* is_nonblocking = */ false,
         )));
         let fd = self.create_fd(open_file_description, OpenFlag::Directory.into())?;
-        self.fdopendir(fd)
+        // The VirtualDir holds a snapshot of the entries and does not own the
+        // descriptor: release it here, as closedir does on a real system.
+        let dir = self.fdopendir(fd);
+        self.current_process_mut().close_fd(fd);
+        dir
     }
 }
 
